@@ -125,6 +125,7 @@ pub fn generate(rng: &mut Rng, tier: Tier, stats: &mut GenStats) -> Scenario {
         walkers: vec![w],
         mutations: vec![],
         schedule: vec![],
+        triggers: vec![],
     }
 }
 
